@@ -10,6 +10,8 @@ func init() {
 			shards: [2]int{4, 16}, checks: [2]int{3000, 150000}, timeout: [2]time.Duration{12 * min, 80 * min}},
 		{name: "names", pkg: "./c05", run: "^TestHostileNames$",
 			shards: [2]int{2, 8}, checks: [2]int{1500, 50000}, timeout: [2]time.Duration{12 * min, 80 * min}},
+		{name: "linedir", pkg: "./c05", run: "^TestHostileLineDirective$",
+			shards: [2]int{2, 8}, checks: [2]int{600, 20000}, timeout: [2]time.Duration{12 * min, 80 * min}},
 		{name: "scopes", pkg: "./c05", run: "^TestScopes$",
 			shards: [2]int{6, 16}, checks: [2]int{150, 6000}, timeout: [2]time.Duration{12 * min, 80 * min}},
 		{name: "flags", pkg: "./c05", run: "^TestFlags$",
